@@ -11,6 +11,7 @@ import SarpyModel.Drivers.Remap
 import SarpyModel.Drivers.Opener
 import SarpyModel.Drivers.Crsd
 import SarpyModel.Drivers.Proj
+import SarpyModel.Drivers.Lifecycle
 namespace Sarpy.Drivers
 
 def step (line : String) : String :=
@@ -29,6 +30,7 @@ def step (line : String) : String :=
   | "opener" :: rest => (openerStep rest).getD "bad-op"
   | "crsd" :: rest => (crsdStep rest).getD "bad-op"
   | "proj" :: rest => (projStep rest).getD "bad-op"
+  | "life" :: rest => (lifeStep rest).getD "bad-op"
   | _ => "bad-op"
 
 partial def loop (h : IO.FS.Stream) : IO Unit := do
